@@ -41,7 +41,7 @@ func main() {
 		raceDir, _ := os.MkdirTemp("", "verif-c04-race-")
 		r.Cleanup(func() { os.RemoveAll(raceDir) })
 		worker.Run(r, worker.Opts{Phase: "race", Total: r.N(150, 1500), Batch: 50, Bin: bin, Timeout: 30 * time.Minute,
-			Env: []string{"GORACE=halt_on_error=0 log_path=" + filepath.Join(raceDir, "race")}})
+			Env: []string{"GORACE=halt_on_error=0 exitcode=0 log_path=" + filepath.Join(raceDir, "race")}})
 		mon.ReportRaces(r, raceDir)
 	}
 	r.Finish(r.N(100, 1500))
